@@ -103,6 +103,9 @@ pub fn eval(ctx: &Ctx, case: &Case) {
 }
 
 pub fn replay(ctx: &Arc<Ctx>, v: &Value) {
+    if crate::cold::replay(ctx, v) {
+        return;
+    }
     let c: Case = serde_json::from_value(v.clone()).expect("C12 case");
     eval(ctx, &c);
 }
@@ -190,4 +193,5 @@ pub fn run(ctx: &Arc<Ctx>) {
     ctx.cov("full_reference_evaluations", json!(cases.iter().filter(|c| matches!(c, Case::Pair { full: true, .. })).count()));
     run_cases(ctx, &cases, 4, eval);
 
+    crate::cold::check(ctx, "C12");
 }
